@@ -1008,7 +1008,7 @@ class C08(Prop):
         big = []
         for ln in (65520, 65534, 65535, 65536, 65537, 70000):
             big.append("E RR " + G.canon(('RR', 10, ('N', []), 1, 0, ('G', [bytes(ln)]))))
-            big.append("E RR " + G.canon(('RR', 41, ('N', []), 0, 0, ('OPT', 512, 0, 0, False, [('PAD', ln - 4 if ln > 4 else 0)]))))
+            big.append("E RR " + G.canon(('RR', 41, ('N', []), 0, 0, ('OPT', 512, 0, 0, False, [('PAD', min(65535, ln - 4))]))))
             big.append("E RR " + G.canon(('RR', 64, ('N', []), 1, 0, ('SVCB', 1, ('N', []), [('PRIV', 7, bytes(ln - 7))]))))
             big.append("E RR " + G.canon(('RR', 64, ('N', []), 1, 0, ('SVCB', 1, ('N', []), [('ECH', bytes(ln - 9))]))))
         for total in (16000, 16400, 65000, 65500, 65535, 65536, 65600, 131000):
@@ -1025,7 +1025,7 @@ class C08(Prop):
             sections.append("E Dns (Dns 1 (F 0 0 0 0 0 0 0 0 0) (L (REP %d %s)) (L) (L) (L))" % (cnt, q))
             sections.append("E Dns (Dns 1 (F 0 0 0 0 0 0 0 0 0) (L) (L (REP %d %s)) (L) (L))" % (cnt, r_))
             sections.append("E Dns (Dns 1 (F 0 0 0 0 0 0 0 0 0) (L) (L) (L) (L (REP %d %s)))" % (cnt, r_))
-        sections.append("E Dns (Dns 1 (F 0 0 0 0 0 0 0 0 0) (L (REP 3000 %s)) (L (REP 3000 %s)) (L) (L))" % (q, r_))
+        sections.append("E Dns (Dns 1 (F 0 0 0 0 0 0 0 0 0) (L (REP 1000 %s)) (L (REP 600 %s)) (L) (L))" % (q, r_))
         if tier == "thorough":
             sections.append("E Dns (Dns 1 (F 0 0 0 0 0 0 0 0 0) (L (REP 13000 %s)) (L) (L) (L))" % q)
         known = []
